@@ -1,9 +1,11 @@
 import PySMT.Impl.Simplifier
 import PySMT.Proofs.SimpBool
+import PySMT.Proofs.SimpArrayEq
 /-!
 # `RuleOK` for `walk_equals`, on the instances admitted by `Simplifier.equalsGuard`
-(the two sides are not array-sorted; the extensional comparison of two constant array values
-is modelled — `arrayValuesEq` — and checked by K and S, its proof belongs to the array family)
+(array-sorted sides: the extensional comparison of two constant array values, `arrayValuesEq`, is
+proved over Int, Real, String, Bool and bit-vector (width ≤ 8) index sorts — `Proofs/SimpArrayEq.lean` —;
+over wider bit-vector index sorts it is modelled and checked by K and S only)
 -/
 namespace PySMT.Simp.BoolRules
 open PySMT PySMT.Build PySMT.Simp PySMT.Simplifier
@@ -45,6 +47,26 @@ theorem typeOfNode_equals (p : Payload) (ta tb : Ty) :
     simp only [allAre, List.all_cons, List.all_nil, Bool.and_true, beq_iff_eq, Option.some.injEq, reduceCtorEq,
       if_false]
 
+/-- under the guard the array comparison only answers over an index sort on which it is proved -/
+theorem equalsGuard_ext {p : Payload} {ts : List (Option Ty)} {sl sr : Term} {idx e : Ty} {b : Bool}
+    (hg : equalsGuard p (some (.array idx e) :: ts) = true) (hty : sl.typeOf = some (.array idx e))
+    (h : arrayValuesEq sl sr = some b) : idxSize idx = none ∨ (Val.smallDomain idx).isSome = true := by
+  unfold arrayValuesEq at h
+  rw [hty] at h
+  simp only at h
+  split at h
+  · next hc =>
+    simp only [Bool.and_eq_true, Bool.not_eq_true'] at hc
+    cases idx with
+    | bool => exact Or.inr rfl
+    | int | real | str => exact Or.inl rfl
+    | bv w =>
+      simp only [equalsGuard, hc.2, Bool.or_false, decide_eq_true_eq] at hg
+      right
+      simp [Val.smallDomain, hg]
+    | array _ _ | custom _ => simp [idxSize] at hc
+  · cases h
+
 theorem walkEquals_ok : RuleOK .equals { rule := walkEquals, guard := equalsGuard } := by
   apply RuleOK.of_res
   intro p args τ hwf hty hg
@@ -61,6 +83,8 @@ theorem walkEquals_ok : RuleOK .equals { rule := walkEquals, guard := equalsGuar
   obtain ⟨hab, hτ⟩ := of_ite_some hty
   subst hab
   subst hτ
+  have wl := wf_args hwf sl (by simp)
+  have wr := wf_args hwf sr (List.mem_cons_of_mem _ List.mem_cons_self)
   have hty' : (equals_ sl sr).typeOf = some .bool := by
     show (Term.node .equals [sl, sr] .none).typeOf = _
     rw [typeOf_node]
@@ -69,58 +93,94 @@ theorem walkEquals_ok : RuleOK .equals { rule := walkEquals, guard := equalsGuar
     simp [hnb]
   have hself : Res (.node .equals [sl, sr] p) .bool (equals_ sl sr) :=
     Res.rebuild (by simp) (by simp) rfl hwf hty' rfl (fun _ => rfl)
-  -- an array value has an array type: excluded by the guard
-  have hnoarr : ∀ t : Term, t.wf = true → t.typeOf = some tb → isArrayValue t = false := by
-    intro t htwf htty
-    cases t with
-    | node op args q =>
-      simp only [isArrayValue, Term.op]
-      cases hop : (op == Op.arrayValue) with
-      | false => rfl
-      | true =>
-        have : op = .arrayValue := by simpa using hop
-        subst this
-        rw [typeOf_node] at htty
-        obtain ⟨idx, d, rest, _, _, _, rfl⟩ := typeOfNode_arrayValue htty
-        simp [equalsGuard] at hg
-  show Res _ _ (walkEquals p [sl, sr])
-  unfold walkEquals
-  simp only
-  split
-  · next h =>
+  have hsame : sl = sr → Res (.node .equals [sl, sr] p) .bool Term.tt := by
+    intro h
     subst h
     rw [tt_eq]
     refine Res.bool _ (fun I _ _ => ?_)
     rw [eval_equals]; simp
-  · next hne =>
-    rw [hnoarr sl (wf_args hwf sl (by simp)) ha, hnoarr sr (wf_args hwf sr (by simp)) hb]
-    simp only [Bool.or_self, Bool.false_eq_true, if_false]
+  show Res _ _ (walkEquals p [sl, sr])
+  unfold walkEquals
+  simp only
+  by_cases harr : ∃ idx e, tb = .array idx e
+  · -- array-sorted sides
+    obtain ⟨idx, e, rfl⟩ := harr
+    -- a scalar constant has no array sort
+    have hnc : ∀ t : Term, t.wf = true → t.typeOf = some (.array idx e) → isArrayValue t = false →
+        isConstant t = false := by
+      intro t htw htt hna
+      cases t with
+      | node op targs q =>
+        have hne : op ≠ .arrayValue := by
+          intro h; subst h; simp [isArrayValue, Term.op] at hna
+        rw [isConstant_nonarray hne]
+        cases hc : op.isConstant with
+        | false => rfl
+        | true => exact (ArrayRules.isConst_not_array htw hc htt).elim
     split
-    · next hcc =>
-      simp only [Bool.and_eq_true] at hcc
-      cases sl with
-      | node o1 a1 p1 =>
-        cases sr with
-        | node o2 a2 p2 =>
-          have n1 : o1 ≠ .arrayValue := by
-            intro h; subst h
-            have := hnoarr _ (wf_args hwf _ (by simp)) ha
-            simp [isArrayValue, Term.op] at this
-          have n2 : o2 ≠ .arrayValue := by
-            intro h; subst h
-            have := hnoarr _ (wf_args hwf _ (List.mem_cons_of_mem _ List.mem_cons_self)) hb
-            simp [isArrayValue, Term.op] at this
-          rw [isConstant_nonarray n1, isConstant_nonarray n2] at hcc
-          refine Res.bool _ (fun I _ _ => ?_)
-          have e1 := const_eval o1 a1 p1 (wf_args hwf _ (by simp)) hcc.1 I
-          have e2 := const_eval o2 a2 p2 (wf_args hwf _ (List.mem_cons_of_mem _ List.mem_cons_self)) hcc.2 I
-          rw [eval_equals, e1.1, e2.1]
-          congr 1
-          show decide (constVal p1 = constVal p2) = decide (p1 = p2)
-          by_cases hpp : p1 = p2
-          · simp [hpp]
-          · have : constVal p1 ≠ constVal p2 := fun h => hpp (constVal_inj e1.2 e2.2 h)
-            simp [hpp, this]
-    · exact hself
+    · next h => exact hsame h
+    · split
+      · split
+        · next hcc =>
+          simp only [Bool.and_eq_true] at hcc
+          cases hav : arrayValuesEq sl sr with
+          | none => exact hself
+          | some b =>
+            refine Res.bool _ (fun I hI _ => ?_)
+            rw [eval_equals]
+            congr 1
+            exact ArrayRules.arrayValuesEq_sound wl wr ha hb hcc.1 hcc.2 (equalsGuard_ext hg ha hav) hav I hI
+        · exact hself
+      · next hna =>
+        simp only [Bool.or_eq_true, not_or, Bool.not_eq_true] at hna
+        rw [hnc sl wl ha hna.1]
+        simp only [Bool.false_and, Bool.false_eq_true, if_false]
+        exact hself
+  · -- an array value has an array type
+    have hnoarr : ∀ t : Term, t.wf = true → t.typeOf = some tb → isArrayValue t = false := by
+      intro t htwf htty
+      cases t with
+      | node op args q =>
+        simp only [isArrayValue, Term.op]
+        cases hop : (op == Op.arrayValue) with
+        | false => rfl
+        | true =>
+          have : op = .arrayValue := by simpa using hop
+          subst this
+          rw [typeOf_node] at htty
+          obtain ⟨idx, d, rest, _, _, _, rfl⟩ := typeOfNode_arrayValue htty
+          exact absurd ⟨_, _, rfl⟩ harr
+    split
+    · next h => exact hsame h
+    · next hne =>
+      rw [hnoarr sl wl ha, hnoarr sr wr hb]
+      simp only [Bool.or_self, Bool.false_eq_true, if_false]
+      split
+      · next hcc =>
+        simp only [Bool.and_eq_true] at hcc
+        cases sl with
+        | node o1 a1 p1 =>
+          cases sr with
+          | node o2 a2 p2 =>
+            have n1 : o1 ≠ .arrayValue := by
+              intro h; subst h
+              have := hnoarr _ wl ha
+              simp [isArrayValue, Term.op] at this
+            have n2 : o2 ≠ .arrayValue := by
+              intro h; subst h
+              have := hnoarr _ wr hb
+              simp [isArrayValue, Term.op] at this
+            rw [isConstant_nonarray n1, isConstant_nonarray n2] at hcc
+            refine Res.bool _ (fun I _ _ => ?_)
+            have e1 := const_eval o1 a1 p1 wl hcc.1 I
+            have e2 := const_eval o2 a2 p2 wr hcc.2 I
+            rw [eval_equals, e1.1, e2.1]
+            congr 1
+            show decide (constVal p1 = constVal p2) = decide (p1 = p2)
+            by_cases hpp : p1 = p2
+            · simp [hpp]
+            · have : constVal p1 ≠ constVal p2 := fun h => hpp (constVal_inj e1.2 e2.2 h)
+              simp [hpp, this]
+      · exact hself
 
 end PySMT.Simp.BoolRules
